@@ -352,7 +352,7 @@ class Unit:
                 elif kw == 'loop':
                     toks = rest.split()
                     flags, kv = _kv(toks[1:])
-                    ent = dict(n=int(toks[0]), iter=kv.get('iter'), hoist=kv.get('hoist'), lines=[])
+                    ent = dict(n=int(toks[0]), iter=kv.get('iter'), hoist=kv.get('hoist'), desugar=kv.get('desugar'), lines=[])
                     spec['loops'][ent['n']] = ent
                     cur = ent['lines']
                 elif kw == 'closure':
@@ -414,7 +414,10 @@ class Unit:
         for old, new, why in spec['replaces']:
             cnt = text.count(old)
             if cnt != 1:
-                raise ScanError('%s: replace anchor %r occurs %d times' % (path, old, cnt))
+                # the expression this rewrite stands for is gone (or duplicated): leave the text as it is; what
+                # Verus then makes of it (unconstrained result, or unsupported construct) decides
+                self.lost_anchors.append('%s: replace anchor %r occurs %d times' % (path, old, cnt))
+                continue
             text = text.replace(old, new)
             log.append(dict(rule='F', before=old, after=new, reason=why))
         # --- rules on whole function text ---
@@ -559,6 +562,27 @@ class Unit:
             newhead = 'let %s = %s;\n%sfor %s in %s ' % (ent['hoist'], expr, indent, mm0.group(1), ent['hoist'])
             log.append(dict(rule='R8', before=norm_ws(body[p0:ob0]), after=norm_ws(newhead)))
             body = body[:p0] + newhead + body[ob0:]
+        # R7 desugar: `for PAT in EXPR { B }` -> `let mut IT = EXPR; loop { let nx = IT.next(); let PAT = match nx { Some(x) => x, None => break }; B }`
+        # (the language definition of `for`), for iterators of external types Verus has no model for
+        for n_, ent in sorted(spec['loops'].items()):
+            if not ent.get('desugar'):
+                continue
+            sn0 = Snippet(body)
+            loops0 = sn0.loops(0, len(body))
+            if n_ < 1 or n_ > len(loops0) or loops0[n_ - 1][1] != 'for':
+                continue
+            p0, kind0, ob0 = loops0[n_ - 1]
+            mm0 = re.match(r'for\s+(.*?)\s+in\s+', body[p0:ob0], re.S)
+            if not mm0:
+                continue
+            expr = body[p0 + mm0.end():ob0].strip()
+            ls = sn0.line_start(p0)
+            indent = body[ls:p0]
+            it = ent['desugar']
+            newhead = 'let mut %s = %s;\n%sloop ' % (it, expr, indent)
+            first = ' let nx__ = %s.next(); let %s = match nx__ { Some(x__) => x__, None => break, };' % (it, mm0.group(1))
+            log.append(dict(rule='R7', before=norm_ws(body[p0:ob0 + 1]), after=norm_ws(newhead + '{' + first)))
+            body = body[:p0] + newhead + '{' + first + body[ob0 + 1:]
         for anchor, prefix, mut in spec['chains']:
             body, err = R.r8_let_chain(body, anchor, prefix, log, mut)
             if err:
